@@ -29,7 +29,7 @@ RULE = ("case = series of 4..60 points x x class x y class (or affine data) x me
         " Round-5 classes: a 'threads' kind (concurrent interpolation requests, all methods except the FITPACK spline)."
         " Round-6 classes: n given next to an explicit grid (documented: ignored)."
         " Round-7 classes: a 'huge' kind - new grids of 66 000..90 000 points (Weaver.interpolate(n) and explicit grids), methods constant / linear / cubic.")
-REQUIRED_MONITORS = ["threads:interp", "c13:at_samples", "c13:constant", "c13:linear", "c13:affine", "c13:weaver_grid", "c13:grid_rejected"]
+REQUIRED_MONITORS = ["threads:interp", "threads:first_use:interp", "threads:first_use_yields_injected", "c13:at_samples", "c13:constant", "c13:linear", "c13:affine", "c13:weaver_grid", "c13:grid_rejected"]
 ASSUMPTIONS = ["x strictly increasing, >= 4 points, new grid sorted (non-decreasing)",
                "extrapolation of linear / cubic / spline is outside the statement and not judged"]
 NSHARDS = 16
@@ -270,13 +270,13 @@ def run_case(ctx, kind_, idx):
 
 
 def run(ctx, spec):
-    if spec["kind"] == "threads":      # concurrent independent requests vs their sequential answers
+    if spec["kind"] in ("threads", "threads_cold"):      # concurrent independent requests vs their sequential answers
         return _jobs.run(ctx, spec, ["interp"])
     for idx in range(spec["start"], spec["start"] + spec["count"]):
         run_case(ctx, spec["kind"], idx)
 
 
 def replay(ctx, case):
-    if case["kind"] == "threads":
-        return _jobs.run_case(ctx, ["interp"], case["idx"])
+    if case["kind"] in ("threads", "threads_cold"):
+        return _jobs.run_case(ctx, ["interp"], case["idx"], cold=case["kind"] == "threads_cold")
     run_case(ctx, case["kind"], case["idx"])
